@@ -815,6 +815,8 @@ def write_evidence(pid, spec, tier, seed, results, known_hits, violations, incon
                   for u, r in results],
         'bounded_units': [{'name': u['name'], 'bound': r['bound'], 'obligations': r['obligations'], 'discharged': r['discharged']}
                           for u, r in bounded],
+        'bounded_obligations': sum(r['obligations'] for _, r in bounded),
+        'bounded_discharged': sum(r['discharged'] for _, r in bounded),
         'samples': samples[:12],
         'not_decided': spec.get('not_decided', []),
         'exhaustive': False,
